@@ -569,12 +569,17 @@ class Cli:
                 return
             with open(path, "rb") as f:
                 raw = f.read().decode("utf-8", "surrogateescape")
-            # the CLI strips one trailing newline of a file; both readings are allowed
+            # A file's final newline may or may not belong to the input: the input is
+            # valid iff it is valid as is, or valid without exactly one final newline.
             contents = [raw] + ([raw[:-1]] if raw.endswith("\n") else [])
-        exp = {self.expected_check(c) for c in contents}
-        if None in exp:
+        verdicts = [self.expected_check(c) for c in contents]
+        if 0 in verdicts:
+            exp = {0}
+        elif None in verdicts:
             self.bump("check_abstained")
             return
+        else:
+            exp = {1}
         if code not in exp:
             if self.z3_trouble_since(0) and code == 1:
                 self.bump("check_reject_under_z3_trouble")
